@@ -215,6 +215,31 @@ func c06(r *report.Run) {
 	}
 	runs += wrappedRuns
 	r.Set("wrapped_membership_runs", wrappedRuns)
+	// Extreme bounds: a range whose span does not fit an int is empty (its size wraps) and must neither be charged nor
+	// credit the budget: what follows it is counted as usual.
+	{
+		vm.MemoryBudget = 100
+		for i, src := range []string{"[len(Lo..Hi), len(1..N)]", "len(Lo..Hi) + len(1..N)", "[Lo..Hi, 1..N]", "len(1..N) + len(Lo..Hi)", "map(1..2, {len(Lo..Hi)})[0] + len(1..N)"} {
+			for _, n := range []int{50, 97, 1000} {
+				for _, opt := range []bool{true, false} {
+					env := map[string]interface{}{"Lo": -9000000000000000000, "Hi": 9000000000000000000, "N": n}
+					p, err := expr.Compile(src, expr.Env(env), expr.Optimize(opt))
+					if err != nil {
+						continue
+					}
+					_, rerr := lib.Run(p, env)
+					runs++
+					need := n // every source builds 1..N once; the other collections here hold at most 2 elements
+					switch {
+					case need+3 < 100 && rerr != nil && strings.Contains(rerr.Error(), "memory budget"):
+						r.Report(report.Violation{Sub: "extreme-bounds", Kind: "under-budget-run-refused", Witness: src, Order: int64(1)<<41 + int64(i), Detail: map[string]interface{}{"N": n, "optimize": opt, "error": rerr.Error()}})
+					case need >= 100 && rerr == nil:
+						r.Report(report.Violation{Sub: "extreme-bounds", Kind: "over-budget-run-succeeds", Witness: src, Order: int64(1)<<41 + int64(i), Detail: map[string]interface{}{"N": n, "optimize": opt}})
+					}
+				}
+			}
+		}
+	}
 	// Sequential phase: shrink each failure (vm.MemoryBudget is a package variable).
 	sort.Slice(fails, func(i, j int) bool {
 		if fails[i].idx != fails[j].idx {
